@@ -1,7 +1,7 @@
 #!/venv/bin/python
 """Confirm a seeded change and run the checks against it.
 
-usage: seedcheck.py DIR [--no-suite]       DIR holds patch.diff and test_demo.py (a seeded/<id>/ directory or an agent's demo/)
+usage: seedcheck.py DIR [--no-suite] [--base REFACTOR.diff]       DIR holds patch.diff and test_demo.py (a seeded/<id>/ directory or an agent's demo/)
 
 1. scratch copy of /repo's working tree (under $TMPDIR, removed afterwards), demo must PASS there
 2. patch applied to the copy: demo must FAIL, the pinned suite must still PASS (unless --no-suite)
@@ -39,6 +39,20 @@ def main():
                 shutil.copytree(s, os.path.join(wt, sub), ignore=shutil.ignore_patterns("__pycache__", "*.egg-info"))
             elif os.path.exists(s):
                 shutil.copy(s, os.path.join(wt, sub))
+        base = None
+        if "--base" in sys.argv:
+            base = os.path.abspath(sys.argv[sys.argv.index("--base") + 1])
+        elif os.path.exists(os.path.join(d, "meta.json")):
+            try:
+                b = json.load(open(os.path.join(d, "meta.json"))).get("base")
+                base = os.path.join(HERE, b) if b else None
+            except Exception:
+                base = None
+        if base:
+            # the change was written against a refactored baseline: that refactoring is applied first
+            rc, o = run(["patch", "-p1", "-s", "--no-backup-if-mismatch", "-i", base], cwd=wt)
+            out["base"] = base
+            out["base_applies"] = rc == 0
         os.makedirs(os.path.join(wt, "demo"))
         shutil.copy(demo, os.path.join(wt, "demo", "test_demo.py"))
         env = dict(os.environ, PYTHONPATH=os.path.join(wt, "src"), PYTHONDONTWRITEBYTECODE="1")
